@@ -23,8 +23,18 @@ SGR = re.compile(r'\x1b\[[\d;]*m')
 def gen(rnd, color):
     cfg = [matchgen.matcher(rnd, 1).strip() if rnd.random() < 0.3 else None,
            matchgen.matcher(rnd, 1).strip() if rnd.random() < 0.3 else None, color, 1, 0]
-    return sessioncheck.build_case(rnd, n_events=rnd.choice([10, 25]), config=cfg, chatter=0.15,
+    case = sessioncheck.build_case(rnd, n_events=rnd.choice([10, 25]), config=cfg, chatter=0.15,
                                    cmds=lambda r: cmdgen.mixed(r, (2, 2, 3, 2, 4)), cmd_rate=0.3)
+    if rnd.random() < 0.15:
+        # an ill-typed line at the very end: the blanket handler prints a traceback and `Error: ` with an EMPTY message text
+        bad = rnd.choice(['[9999999.000] wl_display@1.delete_id("x")', '[9999999.000] wl_registry@2.bind(1)'])
+        k = len(case['impl_events']) - 1
+        while k > 0 and case['impl_events'][k][0] != 'eof':
+            k -= 1
+        case['impl_events'].insert(k, ('line', bad))
+        case['events'].insert(k, ['text', bad])      # the model side of this case is not compared (see run): only the on/off relation on /repo
+        case['hard_error_tail'] = True
+    return case
 
 
 def run(res):
@@ -65,7 +75,7 @@ def run(res):
         else:
             res.nontriv(c['impl_events'])
     # (2) the model's coloured output
-    sessioncheck.run_cases(res, cases[: n // 2], lambda cat: cat.startswith('out.'), 'C17 (model colour)', theorem='model of color()/__str__',
+    sessioncheck.run_cases(res, [c for c in cases[: n // 2] if not c.get('hard_error_tail')], lambda cat: cat.startswith('out.'), 'C17 (model colour)', theorem='model of color()/__str__',
                            nontrivial=lambda c, m: False, kernel_sample=6)
     # (3) pasted back
     pasted_back(res, rnd)
